@@ -295,6 +295,13 @@ func init() {
 					countKinds(c, t)
 				},
 			},
+			{
+				// membership of a bare numeric identifier of every kind in a
+				// literal range or array: the shape the optimizer rewrites
+				Name: "numeric-membership",
+				N:    func(string) uint64 { return uint64(len(c01MemberIdents)) },
+				Run:  c01NumericMembership,
+			},
 		},
 		Post: func(a *runner.Aggregate) []string {
 			var out []string
@@ -304,6 +311,55 @@ func init() {
 			return out
 		},
 	})
+}
+
+var c01MemberIdents = []string{"U", "U8", "U16", "U32", "U64", "A", "I", "Z", "I8", "I16", "I32", "I64", "F32", "X", "Y", "F64"}
+
+func c01NumericMembership(c *runner.Ctx, idx uint64) {
+	g := term.NewGen(c.R, true)
+	name := c01MemberIdents[idx]
+	bounds := [][2]int{{-200, 200}, {-2000, 2000}, {1, 3}, {0, 255}, {-60, 60}, {0, 0}, {5, 1}, {-10, -1}, {0, 70000}}
+	j := newEvalJudge(c)
+	mk := func(op string, rhs *term.Term) {
+		id, err := term.Ident(g.Sc, name)
+		if err != nil {
+			c.Inconclusive(err.Error())
+			return
+		}
+		t, err := term.Binary(g.Sc, op, id, rhs)
+		if err != nil {
+			c.Inconclusive(err.Error())
+			return
+		}
+		styles, seeds := EnvStyles(c.R, 16)
+		j.judge(t, styles, seeds, 0)
+		c.Count("membership_terms", 1)
+	}
+	lit := func(v int) *term.Term {
+		if v < 0 {
+			u, err := term.Unary(g.Sc, "-", term.Int(-v))
+			if err != nil {
+				panic(err)
+			}
+			return u
+		}
+		return term.Int(v)
+	}
+	for _, op := range []string{"in", "not in"} {
+		for _, b := range bounds {
+			rng, err := term.Binary(g.Sc, "..", lit(b[0]), lit(b[1]))
+			if err != nil {
+				c.Inconclusive(err.Error())
+				continue
+			}
+			mk(op, rng)
+		}
+		for _, nm := range []string{"Ints", "Ints2"} {
+			if coll, err := term.Ident(g.Sc, nm); err == nil {
+				mk(op, coll)
+			}
+		}
+	}
 }
 
 func countKinds(c *runner.Ctx, t *term.Term) {
